@@ -267,9 +267,9 @@ def oracle_ops(ck, cw, recs, w, replay):
 
 
 # ------------------------------------------------------------------------------------------ connect()
-def run_connect(nfc, cw, world, new_clf, spec, env_toks, ts, term_at=None):
+def run_connect(nfc, cw, world, new_clf, spec, env_toks, ts, term_at=None, term_at_n=None):
     w = cw.World([cw.parse_answer(t) for t in env_toks], ts)
-    w.term_at = term_at
+    w.term_at, w.term_at_n = term_at, term_at_n
     world[0] = w
     clf = new_clf()
     opts = cw.build_options(nfc, world, spec)
@@ -765,13 +765,23 @@ def run(ck):
 
         counters = {"connect": 0, "activation": 0}
 
-        def connect_case(spec, env, ts, kind="connect"):
+        def connect_case(spec, env, ts, kind="connect", term_at_n=None):
             req = "connect %s %s %s" % (spec.token(), "".join("1" if b else "0" for b in ts) or "-", ",".join(env) or "-")
             try:
-                line, txt, r, w = run_connect(nfc, cw, world, new_clf, spec, env, ts)
+                line, txt, r, w = run_connect(nfc, cw, world, new_clf, spec, env, ts, term_at_n=term_at_n)
             except Exception as e:  # noqa
-                unexpected(ck, kind, e, {"request": req})
+                unexpected(ck, kind, e, {"request": req, "terminate() true from scripted answer": term_at_n})
                 return
+            if term_at_n is not None:
+                # terminate() as a function of time: the model gets the answers terminate() really gave
+                ts = [t == "t1" for t in w.log if t in ("t0", "t1")]
+                req = "connect %s %s %s" % (spec.token(), "".join("1" if b else "0" for b in ts) or "-", ",".join(env) or "-")
+                if txt == "exc Runaway" or (w.k_pos is not None and len(w.log) - w.k_pos > PROMPT_BOUND + 1):
+                    ck.fail("not-prompt-after-terminate-time",
+                            "terminate() is true once %d scripted answers are consumed (log position %s), but %s"
+                            % (term_at_n, w.k_pos, "the run did not end" if txt == "exc Runaway" else
+                               "%d further events followed: ...%s" % (len(w.log) - w.k_pos, " ".join(w.log[w.k_pos:w.k_pos + 12]))),
+                            {"request": req, "impl": line[:600], "terminate() true from scripted answer": term_at_n})
             reqs.append((req, line, kind))
             counters[kind] += 1
             nontrivial = any(t.startswith("cb:") and ":startup:" not in t for t in w.log) or bool(w.injected)
@@ -865,6 +875,18 @@ def run(ck):
         for spec, env in loops:
             for k in range(0, 24):
                 connect_case(spec, env, [False] * k)
+        # ... and as a function of TIME while the loops are busy (a tag that stays, a reader that keeps polling the
+        # emulated tag so that there is always a response to send)
+        poll = "F.0600ffff0000.-.0.0"
+        busy = [
+            (cw.ConnSpec(rdwr={"su": 0, "tg": ["a", "b"], "di": 2, "co": 2, "re": 2, "it": 1, "bp": 1}),
+             ["0", "F.4400.-.0.0.1", "F.0578807002.-.0.0", "0"] + ["F.00.-.0.0"] * 60),
+            (cw.ConnSpec(card={"su": 3, "kind": "f", "di": 2, "co": 2, "re": 2}), ["0", "F.-.-.0.0"] + [poll] * 60),
+            (cw.ConnSpec(card={"su": 0, "kind": "f", "di": 2, "co": 2, "re": 1}), ["0", "F.-.-.0.0"] + [poll, "c", poll, "T"] * 15),
+        ]
+        for spec, env in busy:
+            for k in range(0, 30):
+                connect_case(spec, env, [], term_at_n=k)
         ck.count("connect runs", counters["connect"])
 
         # ------------------------------------------------------------ the activation step inside connect(rdwr=...): the REAL
